@@ -97,6 +97,17 @@ structure Inv (H : Bytes → Bytes) (ver : Bytes) (row : VGen.VersionRow) (e : P
   fields : checkFields e = .ok ()
   hid : e.fmt ≠ .v1 → referenceID H row ver (.obj e.obj) = .ok e.f.eventIDRaw
 
+/-- The same without `CheckFields`: what holds of an event `NewEventFromTrustedJSON` returned as well. -/
+structure TInv (H : Bytes → Bytes) (ver : Bytes) (row : VGen.VersionRow) (e : PDU) : Prop where
+  hrow : rowOf ver = some row
+  hver : e.ver = ver
+  hfmt : fmtOfName row.newEventFromUntrustedJSONFunc = some e.fmt
+  room : checkRoom e.fmt e.f = .ok ()
+  hid : e.fmt ≠ .v1 → referenceID H row ver (.obj e.obj) = .ok e.f.eventIDRaw
+
+theorem Inv.toTInv {H : Bytes → Bytes} {ver : Bytes} {row : VGen.VersionRow} {e : PDU} (I : Inv H ver row e) : TInv H ver row e :=
+  ⟨I.hrow, I.hver, I.hfmt, I.room, I.hid⟩
+
 theorem inv_of_accepted {H : Bytes → Bytes} {ver text : Bytes} {e : PDU} (h : parseUntrusted H ver text = .ok e) :
     ∃ row, Inv H ver row e := by
   obtain ⟨row', fmt', p', kvs', hrow', hfmt', _, _, hA, hef, _⟩ := C04.parseUntrusted_cases h
@@ -203,17 +214,25 @@ theorem roomIDValid_hashed (d : Bytes) (hd : d.length = 32) :
 def Len32 (H : Bytes → Bytes) : Prop := ∀ x, (H x).length = 32
 
 /-- the stored ID of a hashed format is `$` + base64 -/
-theorem id_shape {H : Bytes → Bytes} {ver : Bytes} {row : VGen.VersionRow} {e : PDU} (I : Inv H ver row e) (hv : e.fmt ≠ .v1) :
+theorem id_shapeT {H : Bytes → Bytes} {ver : Bytes} {row : VGen.VersionRow} {e : PDU} (I : TInv H ver row e) (hv : e.fmt ≠ .v1) :
     ∃ d, (row.eventIDFormat = 2 ∧ e.f.eventIDRaw = 0x24 :: B64.encodeWith B64.stdAlphabet (H d)) ∨
          (row.eventIDFormat = 3 ∧ e.f.eventIDRaw = 0x24 :: B64.encodeWith B64.urlAlphabet (H d)) :=
   referenceID_shape ((rowFacts I.hrow I.hfmt).hashed hv).1 (I.hid hv)
 
-theorem eventID_ok {H : Bytes → Bytes} {ver : Bytes} {row : VGen.VersionRow} {e : PDU} (I : Inv H ver row e) :
+theorem id_shape {H : Bytes → Bytes} {ver : Bytes} {row : VGen.VersionRow} {e : PDU} (I : Inv H ver row e) (hv : e.fmt ≠ .v1) :
+    ∃ d, (row.eventIDFormat = 2 ∧ e.f.eventIDRaw = 0x24 :: B64.encodeWith B64.stdAlphabet (H d)) ∨
+         (row.eventIDFormat = 3 ∧ e.f.eventIDRaw = 0x24 :: B64.encodeWith B64.urlAlphabet (H d)) :=
+  id_shapeT I.toTInv hv
+
+theorem eventID_okT {H : Bytes → Bytes} {ver : Bytes} {row : VGen.VersionRow} {e : PDU} (I : TInv H ver row e) :
     eventID H e = .ok e.f.eventIDRaw := by
   unfold eventID
   by_cases hv : e.fmt = .v1
   · simp [hv]
-  · obtain ⟨d, ⟨_, h⟩ | ⟨_, h⟩⟩ := id_shape I hv <;> simp [h]
+  · obtain ⟨d, ⟨_, h⟩ | ⟨_, h⟩⟩ := id_shapeT I hv <;> simp [h]
+
+theorem eventID_ok {H : Bytes → Bytes} {ver : Bytes} {row : VGen.VersionRow} {e : PDU} (I : Inv H ver row e) :
+    eventID H e = .ok e.f.eventIDRaw := eventID_okT I.toTInv
 
 theorem checkRoom_valid {fmt : Fmt} {f : Fields} (h : checkRoom fmt f = .ok ()) (hc : (fmt == .v3 && isCreateF f) = false) :
     roomIDValid? f.roomID = some true ∧ f.roomID ≠ [] := by
@@ -244,15 +263,15 @@ theorem checkRoom_valid {fmt : Fmt} {f : Fields} (h : checkRoom fmt f = .ok ()) 
         simp [checkID] at hid
       · cases h
 
-theorem roomID_ok {H : Bytes → Bytes} (hH : Len32 H) {ver : Bytes} {row : VGen.VersionRow} {e : PDU} (I : Inv H ver row e) :
+theorem roomID_okT {H : Bytes → Bytes} (hH : Len32 H) {ver : Bytes} {row : VGen.VersionRow} {e : PDU} (I : TInv H ver row e) :
     ∃ rid, roomID H e = .ok rid := by
   unfold roomID
   by_cases hc : (e.fmt == .v3 && isCreate e) = true
-  · rw [if_pos hc, eventID_ok I]
+  · rw [if_pos hc, eventID_okT I]
     simp only [Bool.and_eq_true, beq_iff_eq] at hc
     have hne : e.fmt ≠ .v1 := by rw [hc.1]; intro h; cases h
     have h3 := (rowFacts I.hrow I.hfmt).v3 hc.1
-    obtain ⟨d, ⟨h2, _⟩ | ⟨_, h⟩⟩ := id_shape I hne
+    obtain ⟨d, ⟨h2, _⟩ | ⟨_, h⟩⟩ := id_shapeT I hne
     · rw [h3] at h2; cases h2
     · rw [h]
       simp only [newRoomIDOrPanic, roomIDValid_hashed (H d) (hH d)]
@@ -263,7 +282,10 @@ theorem roomID_ok {H : Bytes → Bytes} (hH : Len32 H) {ver : Bytes} {row : VGen
     simp only [newRoomIDOrPanic, hv]
     exact ⟨_, rfl⟩
 
-theorem authEventIDs_ok {H : Bytes → Bytes} {ver : Bytes} {row : VGen.VersionRow} {e : PDU} (I : Inv H ver row e) :
+theorem roomID_ok {H : Bytes → Bytes} (hH : Len32 H) {ver : Bytes} {row : VGen.VersionRow} {e : PDU} (I : Inv H ver row e) :
+    ∃ rid, roomID H e = .ok rid := roomID_okT hH I.toTInv
+
+theorem authEventIDs_okT {H : Bytes → Bytes} {ver : Bytes} {row : VGen.VersionRow} {e : PDU} (I : TInv H ver row e) :
     ∃ l, authEventIDs e = .ok l := by
   unfold authEventIDs
   split
@@ -280,6 +302,9 @@ theorem authEventIDs_ok {H : Bytes → Bytes} {ver : Bytes} {row : VGen.VersionR
       split
       · rename_i hnil; exact absurd hnil hne
       · exact ⟨_, rfl⟩
+
+theorem authEventIDs_ok {H : Bytes → Bytes} {ver : Bytes} {row : VGen.VersionRow} {e : PDU} (I : Inv H ver row e) :
+    ∃ l, authEventIDs e = .ok l := authEventIDs_okT I.toTInv
 
 /-- calls that cannot end in a panic whatever the event -/
 theorem cls_ok {α : Type} (x : α) (site : String) : cls (.ok x : Except Err α) ≠ .error (.panic site) := by
@@ -339,49 +364,21 @@ theorem setUnsigned_np (e : PDU) (u : JVal) (site : String) : cls (setUnsigned e
   · simp only
     split <;> (intro h; cases h)
 
-theorem toHeadered_np {H : Bytes → Bytes} {ver : Bytes} {row : VGen.VersionRow} {e : PDU} (I : Inv H ver row e) (site : String) :
+theorem toHeadered_npT {H : Bytes → Bytes} {ver : Bytes} {row : VGen.VersionRow} {e : PDU} (I : TInv H ver row e) (site : String) :
     cls (toHeadered H e) ≠ .error (.panic site) := by
   unfold toHeadered
-  rw [eventID_ok I]
+  rw [eventID_okT I]
   intro h; cases h
+
+theorem toHeadered_np {H : Bytes → Bytes} {ver : Bytes} {row : VGen.VersionRow} {e : PDU} (I : Inv H ver row e) (site : String) :
+    cls (toHeadered H e) ≠ .error (.panic site) := toHeadered_npT I.toTInv site
 
 /-! ## Events from the trusted constructors -/
 
-/-- what the accessors other than `Redact` / `Sign` / v12-create `RoomID` need: the room-ID check passed and a hashed
-    format has a stored ID -/
-structure TInv (e : PDU) : Prop where
-  room : checkRoom e.fmt e.f = .ok ()
-  hasID : e.fmt ≠ .v1 → e.f.eventIDRaw ≠ []
-
-theorem Inv.toTInv {H : Bytes → Bytes} {ver : Bytes} {row : VGen.VersionRow} {e : PDU} (I : Inv H ver row e) : TInv e := by
-  refine ⟨I.room, ?_⟩
-  intro hv
-  obtain ⟨d, ⟨_, h⟩ | ⟨_, h⟩⟩ := id_shape I hv <;> (rw [h]; exact List.cons_ne_nil _ _)
-
-theorem populate_hasID {H : Bytes → Bytes} {row : VGen.VersionRow} {e e' : PDU} (h : populateEventID H row e = .ok e')
-    (hf : e.fmt ≠ .v1 → row.eventFormat = 2) : e'.fmt = e.fmt ∧ (e'.fmt ≠ .v1 → e'.f.eventIDRaw ≠ []) := by
-  unfold populateEventID at h
-  split at h
-  · rename_i hv1
-    cases h
-    exact ⟨rfl, fun hne => absurd (by simpa using hv1) hne⟩
-  · split at h
-    · rename_i hne
-      cases h
-      refine ⟨rfl, fun _ => ?_⟩
-      intro hn; rw [hn] at hne; simp at hne
-    · rename_i hv1 _
-      split at h
-      · cases h
-      · cases h
-      · rename_i id hid
-        cases h
-        refine ⟨rfl, fun _ => ?_⟩
-        have hv : e.fmt ≠ .v1 := by simpa using hv1
-        obtain ⟨d, ⟨_, hd⟩ | ⟨_, hd⟩⟩ := referenceID_shape (hf hv) hid <;> (show id ≠ []; rw [hd]; exact List.cons_ne_nil _ _)
-
+/-- `NewEventFromTrustedJSON`: the room-ID check passed and the ID of a hashed format is the reference hash of the
+    event, whatever `event_id` member the trusted JSON carries (the V2 / V3 constructors reset the field) -/
 theorem tinv_of_trusted {H : Bytes → Bytes} {ver text : Bytes} {red : Bool} {e : PDU} (h : parseTrusted H ver red text = .ok e) :
-    TInv e ∧ e.ver = ver ∧ ∃ row fmt, rowOf ver = some row ∧ fmtOfName row.newEventFromUntrustedJSONFunc = some fmt := by
+    ∃ row, TInv H ver row e := by
   unfold parseTrusted at h
   split at h
   · cases h
@@ -389,77 +386,34 @@ theorem tinv_of_trusted {H : Bytes → Bytes} {ver text : Bytes} {red : Bool} {e
     split at h
     · cases h
     · rename_i p hp
-      unfold trustedCore at h
-      split at h
-      · cases h
-      · rename_i fmt hfmt
-        split at h
-        · cases h
-        · rename_i e0 hc
-          -- the table: the trusted and untrusted constructor columns name the same struct
-          have hrowok := table_rowOk row (rowOf_mem hrow)
-          unfold rowOk at hrowok
-          cases hu : fmtOfName row.newEventFromUntrustedJSONFunc with
-          | none => rw [hu] at hrowok; cases hrowok
-          | some fmt' =>
-            have F := rowFacts hrow hu
-            have hff : fmt' = fmt := by have := F.trusted; rw [hfmt] at this; exact (Option.some.inj this).symm
-            subst hff
-            obtain ⟨hroom, hf0⟩ := construct_checkRoom hc
-            obtain ⟨kvs, _, hv0, _⟩ := construct_ok hc
-            obtain ⟨hs, _⟩ := populate_ok h
-            obtain ⟨hfe, hid⟩ := populate_hasID h (fun hne => (F.hashed (by rw [← hf0]; exact hne)).1)
-            refine ⟨⟨sameButID_checkRoom hs (by rw [hf0]; exact hroom), hid⟩, ?_, row, fmt', hrow, hu⟩
-            have : e.ver = e0.ver := by rw [hs]
-            rw [this, hv0]
+      obtain ⟨fmt, e0, hfmt, hc, hs, hid⟩ := trustedCore_ok h
+      -- the table: the trusted and untrusted constructor columns name the same struct
+      have hrowok := table_rowOk row (rowOf_mem hrow)
+      unfold rowOk at hrowok
+      cases hu : fmtOfName row.newEventFromUntrustedJSONFunc with
+      | none => rw [hu] at hrowok; cases hrowok
+      | some fmt' =>
+        have F := rowFacts hrow hu
+        have hff : fmt' = fmt := by have := F.trusted; rw [hfmt] at this; exact (Option.some.inj this).symm
+        subst hff
+        obtain ⟨hroom, hf0⟩ := construct_checkRoom hc
+        obtain ⟨kvs, _, hv0, _⟩ := construct_ok hc
+        have hfe : e.fmt = e0.fmt := by rw [hs]
+        have hve : e.ver = e0.ver := by rw [hs]
+        have hoe : e.obj = e0.obj := by rw [hs]
+        refine ⟨row, hrow, by rw [hve, hv0], by rw [hfe, hf0]; exact hu, sameButID_checkRoom hs (by rw [hf0]; exact hroom), ?_⟩
+        intro hne
+        have := hid (by rw [← hfe]; exact hne)
+        rw [hv0] at this
+        rw [hoe]; exact this
 
-theorem eventID_ok' {H : Bytes → Bytes} {e : PDU} (T : TInv e) : eventID H e = .ok e.f.eventIDRaw := by
-  unfold eventID
-  by_cases hv : e.fmt = .v1
-  · simp [hv]
-  · have := T.hasID hv
-    cases hr : e.f.eventIDRaw with
-    | nil => exact absurd hr this
-    | cons c rest => simp
-
-theorem authEventIDs_ok' {e : PDU} (T : TInv e) : ∃ l, authEventIDs e = .ok l := by
-  unfold authEventIDs
-  split
-  · exact ⟨_, rfl⟩
-  · exact ⟨_, rfl⟩
-  · split
-    · exact ⟨_, rfl⟩
-    · rename_i hc
-      have hc' : (e.fmt == .v3 && isCreateF e.f) = false := by
-        have : isCreateF e.f = false := by simpa [isCreate] using hc
-        rw [this, Bool.and_false]
-      obtain ⟨_, hne⟩ := checkRoom_valid T.room hc'
-      split
-      · rename_i hnil; exact absurd hnil hne
-      · exact ⟨_, rfl⟩
-
-/-- `RoomID()` of anything but a version-12 create event -/
-theorem roomID_ok' {H : Bytes → Bytes} {e : PDU} (T : TInv e) (hc : (e.fmt == .v3 && isCreate e) = false) :
-    ∃ rid, roomID H e = .ok rid := by
-  unfold roomID
-  rw [if_neg (by simp [hc])]
-  have hc' : (e.fmt == .v3 && isCreateF e.f) = false := by simpa [isCreate] using hc
-  obtain ⟨hv, _⟩ := checkRoom_valid T.room hc'
-  simp only [newRoomIDOrPanic, hv]
-  exact ⟨_, rfl⟩
-
-theorem checkFields_np {e : PDU} (T : TInv e) (site : String) : checkFields e ≠ .error (.panic site) := by
+theorem checkFields_np {H : Bytes → Bytes} {ver : Bytes} {row : VGen.VersionRow} {e : PDU} (T : TInv H ver row e) (site : String) :
+    checkFields e ≠ .error (.panic site) := by
   unfold checkFields
-  obtain ⟨l, hl⟩ := authEventIDs_ok' T
+  obtain ⟨l, hl⟩ := authEventIDs_okT T
   rw [hl]
   simp only
   repeat' split
   all_goals (intro h; first | cases h | (unfold byteLimitErr at h; split at h <;> cases h))
-
-theorem toHeadered_np' {H : Bytes → Bytes} {e : PDU} (T : TInv e) (site : String) :
-    cls (toHeadered H e) ≠ .error (.panic site) := by
-  unfold toHeadered
-  rw [eventID_ok' T]
-  intro h; cases h
 
 end V.AccProofs
